@@ -150,7 +150,7 @@ fn to_slpp(b: &[u8], comp: Option<arrow2::io::ipc::write::Compression>, hash: bo
     let g = slippi::read(Cursor::new(b), Some(&read_opts(false, hash))).map_err(|e| format!("err {}", e))?;
     let mut buf = vec![]; peppi::io::peppi::write(&mut buf, g, Some(&peppi::io::peppi::ser::Opts { compression: comp })).map_err(|e| format!("err {}", e))?; Ok(buf)
 }
-fn game_sig(g: &Game) -> String { format!("{} | {} | {} | {:?} | {:?} | {:?}", dump::summary(g), start_json(&g.start), end_json(&g.end), g.metadata, g.hash, g.quirks.map(|q| q.double_game_end)) }
+pub fn game_sig(g: &Game) -> String { format!("{} | {} | {} | {:?} | {:?} | {:?}", dump::summary(g), start_json(&g.start), end_json(&g.end), g.metadata, g.hash, g.quirks.map(|q| q.double_game_end)) }
 
 fn pprefix(rng: &mut Rng, ctx: &mut Ctx) {
     let comps = [None, Some(arrow2::io::ipc::write::Compression::LZ4), Some(arrow2::io::ipc::write::Compression::ZSTD)];
